@@ -35,11 +35,14 @@ type c12Plan struct {
 	P        int          `json:"p"`
 	Restarts []c12Restart `json:"restarts"`
 	Prior    bool         `json:"prior"` // the machines have completed another round earlier in the same process lifetime
+	// Reseed: before the ceremony the operator of the restarted machine enters the same mnemonic once more (set_seed a
+	// second time in the same session); the keys derived from a mnemonic do not depend on how often it was entered
+	Reseed bool `json:"reseed,omitempty"`
 }
 
 func c12Gen(rt *rapid.T) c12Plan {
 	nt := rapid.SampledFrom([][2]int{{2, 2}, {3, 2}, {3, 3}, {4, 3}}).Draw(rt, "nt")
-	p := c12Plan{N: nt[0], T: nt[1], P: rapid.IntRange(0, nt[0]-1).Draw(rt, "p"), Prior: rapid.Bool().Draw(rt, "prior")}
+	p := c12Plan{N: nt[0], T: nt[1], P: rapid.IntRange(0, nt[0]-1).Draw(rt, "p"), Prior: rapid.Bool().Draw(rt, "prior"), Reseed: rapid.IntRange(0, 2).Draw(rt, "reseed") == 0}
 	k := rapid.IntRange(1, 3).Draw(rt, "nrestarts")
 	seen := map[int]bool{}
 	for i := 0; i < k; i++ {
@@ -80,6 +83,19 @@ func c12Execute(p c12Plan, withRestarts bool, root string) (obs c12Obs) {
 			return
 		}
 		time.Sleep(time.Hour)
+	}
+	if p.Reseed && withRestarts && !p.Prior {
+		// (only without an earlier round: entering the mnemonic restarts the machine's seeded random stream, so after an
+		// earlier round the re-seeded machine would - legitimately - draw other ceremony randomness than its twin)
+		m := w.Machines[p.P]
+		if err := m.M.SetBaseSeed(m.Mnemonic); err == nil {
+			err = m.M.GenerateKeys()
+		}
+		if err != nil {
+			obs.Err = fmt.Errorf("entering the mnemonic a second time: %w", err)
+			return
+		}
+		obs.Restarted = append(obs.Restarted, "mnemonic entered a second time")
 	}
 	round, err := w.StartDKG(0, p.T, nil)
 	if err != nil {
